@@ -36,6 +36,15 @@ const TYPES: &[&str] = &[
     "m.room.third_party_invite",
     "x.custom",
     "",
+    // near misses of the seven special types: a dispatch that trims, strips, lower-cases or
+    // prefix-matches the type instead of comparing it would treat these like the real type
+    "member", "create", "join_rules", "power_levels", "history_visibility", "redaction", "aliases",
+    "m.room.m.room.member", "m.room.m.room.create", "m.room.m.room.power_levels", "m.room.m.room.aliases",
+    "m.room.m.room.redaction", "m.room.m.room.join_rules", "m.room.m.room.history_visibility",
+    "m.room.members", "m.room.create2", "m.room.join_rule", "m.room.power_level", "m.room.alias",
+    "m.room.redactions", "m.room.history_visibilit",
+    "M.ROOM.MEMBER", "m.room.Create", "m.Room.power_levels", " m.room.member", "m.room.member ",
+    "room.member", "m.member", "xm.room.create", "m.room.", "m.room", "org.example.m.room.power_levels",
 ];
 
 const TOP_KEYS: &[&str] = &[
